@@ -22,8 +22,8 @@ TRUSTED = ["binary64 semantics of Go on amd64 (no fused multiply-add) = Coq prim
            "R->F gap: range theorems are proved in exact real arithmetic; at binary64 the ranges are observed on every traced crop day (tolerance 1e-9 on [0,1] factors)"]
 ASSUMPTIONS = ["since round 9 photosynthesis (radia: RadiaModel head + assim_of tail), vernalisation / day-length factor / stress acceleration and root() (DevModel), "
                "the root distribution and pool inputs (RootDistModel), maxup / MASS / DIFF (SupplyModel) and the crop coefficient are MODELLED and tied bit for bit; "
-               "what remains an oracle input: the value of every transcendental call (exp, log, pow with a non-integer exponent, sin, cos, asin), the maintenance "
-               "respiration sum MAINTS*TEFF of radia, and GTW / the maintenance terms of the organ fragment (obtained by a second replay of the real PhytoOut)",
+               "what remains an oracle input: the value of every transcendental call (exp, log, pow with a non-integer exponent, sin, cos, asin) "
+               "and GTW / the maintenance terms of the organ fragment (obtained by a second replay of the real PhytoOut)",
                "GEHOB/WUGEH >= 0 is proved only under 'root share of the uptake <= 1' and 'old root N within the crop N'; without the first "
                "it is refuted (C09_gehob_negative_refuted = finding F24) and observed on every traced crop day",
                "parameter preconditions not guarded by the code are explicit hypotheses: tendsum > 200 (N-content function 8), RGA > 0 (function 5), "
@@ -32,7 +32,7 @@ ASSUMPTIONS = ["since round 9 photosynthesis (radia: RadiaModel head + assim_of 
                "unmodelled parts of crop.go (observed through the oracle only or not at all): sowing block 61-127, BBCH day bookkeeping 140-144 and 308-312, SWC sums 159-180, "
                "automatic harvest 182-205 and 549-555, GPP sums 212-224, protein targets 229-237, CalulateDevelopmentStages 290, "
                "stress counters 441-451, RespDay 461, LAIMAX 488-490, permanent-crop regrowth 521-541, SimulateFertilizationAfterPrognose 701, "
-               "MASSUM/DIFFSUM 717-718, SCHNORR/NFIXSUM 739-740, the maintenance loop of radia 955-971, the cumulative root percentages of root() (unused by PhytoOut)"]
+               "MASSUM/DIFFSUM 717-718, SCHNORR/NFIXSUM 739-740, the cumulative root percentages of root() (unused by PhytoOut)"]
 LEVEL_TEXT = ("PARTIAL proof, two layers. Coq proofs for all inputs of the decision/clamp logic inside PhytoOut: the stage index never decreases and "
               "the recorded stage dates are ordered over any sequence of days (any numeric type); organ masses/LAI/assimilate pool stay "
               "non-negative; 0 <= REDUK <= 1 (with exp(1+1/(AUX-1)) in (0,1)); 1 <= WURZ <= min(N, max(1, round(WURZMAX*WUMAXPF/11))); uptake "
@@ -50,7 +50,7 @@ LEVEL_TEXT = ("PARTIAL proof, two layers. Coq proofs for all inputs of the decis
               "binary64 and compared bit for bit (8 further kernel ties, ~12,000 cases per quick run). "
               "Finiteness of the state and the [0,1] range of TRREL/ETREL are observed on traces only.")
 LEVEL_NOTE = ("Partial: the modelled fragments are tied by trace (shadow replay of the exported PhytoOut), not by calling fragments in isolation; "
-              "the values of transcendental calls and the maintenance sum of radia are oracle inputs; GEHOB >= 0 needs the root-share hypothesis the code "
+              "the values of transcendental calls are oracle inputs; GEHOB >= 0 needs the root-share hypothesis the code "
               "does not establish (F24); no rounding-error bound between R and binary64 (identities observed to 1e-9 on every traced crop day). "
               "Reals axioms of the standard library; Coq-Interval (primitive floats) only in CropNProofs.lg_bound.")
 TECHNIQUE = "Coq proof (case analysis on clamps, induction over days, lra/nra, exp monotonicity) + bit-exact trace correspondence + property oracle on traced rotations"
